@@ -1186,6 +1186,9 @@ type lastCall struct {
 }
 
 func calleeKey(c *ssa.CallCommon) string {
+	if b, ok := c.Value.(*ssa.Builtin); ok {
+		return "builtin." + b.Name()
+	}
 	if c.IsInvoke() {
 		return strings.ReplaceAll(c.Method.FullName(), modPath+"/", "")
 	}
